@@ -1665,7 +1665,21 @@ impl PrettyPrint for Expression<'_> {
                 op: self::UnaryOperator::Negate,
                 expr,
                 ..
-            } => m::operator("-") + with_parens(expr),
+            } => match expr.as_ref() {
+                // `-(2 °C)` would be read back as `(-2) °C`, see the prefix transformer:
+                // print the call instead of its sugar form
+                FunctionCall { name, args, .. }
+                    if args.len() == 1
+                        && (*name == "from_celsius" || *name == "from_fahrenheit") =>
+                {
+                    m::operator("-")
+                        + m::identifier(name.to_compact_string())
+                        + m::operator("(")
+                        + args[0].pretty_print()
+                        + m::operator(")")
+                }
+                _ => m::operator("-") + with_parens(expr),
+            },
             UnaryOperator {
                 op: self::UnaryOperator::Factorial(order),
                 expr,
